@@ -6,20 +6,23 @@ import random
 
 def spec(tier, seed):
     jobs, gen_g = [], ""
-    blocks = g.gblock_all() if tier == "thorough" else g.gblock_small()[:5]
+    blocks = g.gblock_all() if tier == "thorough" else g.gblock_small()[:5] + [(16, 8, 8, 0)]
     rnd = random.Random(seed)
     for (w, h, px, py) in blocks:
         sl = g.gblock_slices(w, h, px, py)
         if tier == "quick":
             # the slice around the zero vector plus one seeded slice
             mid = [x for x in sl if x[0] <= 0 <= x[1]]
-            sl = mid + rnd.sample([x for x in sl if x not in mid], 1)
+            if (w, h, px, py) in g.gblock_big():
+                sl = [x for x in sl if x[0] <= 2 <= x[1]]     # the slice that holds the fast path's right boundary (+1 sample)
+            else:
+                sl = mid + rnd.sample([x for x in sl if x not in mid], 1)
         for (mx0, mx1, ry) in sl:
             gen_g += g.gblock(w, h, px, py, mx0, mx1, ry)
-            jobs.append(Job("h263", g.gblock_name(w, h, px, py, mx0), 5400 if (w, h, px, py) in g.gblock_big() else 1800, tagged=True, group="half-sample interpolation",
+            jobs.append(Job("h263", g.gblock_name(w, h, px, py, mx0), 5400 if (w, h, px, py) in g.gblock_big() else 1800, tagged=False, group="half-sample interpolation",
                             params={"plane": "%dx%d" % (w, h), "block_at": [px, py], "vector_x_half_samples": [mx0, mx1], "vector_y_half_samples": [-ry, ry]},
                             allow_uncovered=("a sample inside the block checked",) if (px >= w or py >= h) else ()))
-    jobs.append(Job("h263", "c03_gather_wiring", 2400, tagged=True, group="prediction wiring"))
+    jobs.append(Job("h263", "c03_gather_wiring", 2400, tagged=False, group="prediction wiring"))
     jobs.append(Job("h263", "c03_lerp_parameters", 300, tagged=False, group="half-sample split"))
     # vectors: the C12 obligations are part of the C03 claim
     c12spec = c12.spec(tier, seed)
